@@ -1,4 +1,4 @@
-import EvalFilter.Proofs.OptSim6
+import EvalFilter.Proofs.OptSim6b
 set_option linter.unusedSimpArgs false
 set_option linter.unusedVariables false
 namespace EvalFilter.OptSim
@@ -34,25 +34,19 @@ theorem run_refines {M M' : Machine} {obj : HostVal} (hM : MRel (BRel M M' obj) 
     simp only [finish, hst.1]
     exact ⟨by rw [h2.1], h2.2.1, h2.2.2.1, h2.2.2.2⟩
 
-/-- one step of a body: unchanged (and well-formed), or one validated rewrite -/
-def Step1 (c c' : Bytes) : Prop := (c' = c ∧ wfB c = true) ∨ validStep c c' = true
+/-- one step of a body: unchanged (and well-formed), or one validated step of one of the four passes -/
+def Step1 (c c' : Bytes) : Prop := (c' = c ∧ wfB c = true) ∨ okStep c c' = true
 
 theorem Step1.brel {M M' : Machine} {obj : HostVal} {c c' : Bytes} (hnd : NeverDone M) (hnd' : NeverDone M')
     (h : Step1 c c') : BRel M M' obj c c' := by
   rcases h with ⟨rfl, h⟩ | h
   · exact bodySim_id h
-  · exact validStep_sound hnd hnd' h
-
-theorem validStep_length {c c' : Bytes} (h : validStep c c' = true) : c'.length = c.length := by
-  unfold validStep at h
-  cases hd : WF.decode 0 c <;> cases hd' : WF.decode 0 c' <;> simp [hd, hd'] at h
-  exact h.1
-
-theorem Step1.empty {c c' : Bytes} (h : Step1 c c') : c'.isEmpty = c.isEmpty := by
-  rcases h with ⟨e, _⟩ | hv
-  · rw [e]
-  · have := validStep_length hv
-    cases c <;> cases c' <;> simp_all
+  · unfold okStep at h
+    simp only [Bool.or_eq_true] at h
+    rcases h with (h | h) | h
+    · exact validStep_sound hnd hnd' h
+    · exact validStrip_sound hnd h
+    · exact validDead_sound h
 
 /-- the machine whose bodies are at stage `t` of their rewriting (`S b t` for the body that started as `b`) -/
 def atStage (M : Machine) (S : Bytes → Nat → Bytes) (t : Nat) : Machine :=
@@ -88,7 +82,8 @@ theorem atStage_step (M : Machine) (obj : HostVal) (S : Bytes → Nat → Bytes)
   | none => exact Or.inl ⟨rfl, rfl⟩
   | some u =>
     have hs := hS u.code (Or.inr ⟨u, lookupUser_mem' h, rfl⟩) t
-    exact Or.inr ⟨_, _, rfl, rfl, rfl, hs.brel hnd1 hnd2, hs.empty⟩
+    obtain ⟨R, hB⟩ := hs.brel (M := atStage M S t) (M' := atStage M S (t + 1)) (obj := obj) hnd1 hnd2
+    exact Or.inr ⟨_, _, rfl, rfl, rfl, ⟨R, hB⟩, hB.empty⟩
 
 theorem atStage_refines (M : Machine) (obj : HostVal) (S : Bytes → Nat → Bytes) (hnd : NeverDone M)
     (hS : ∀ b, (b = M.main ∨ ∃ u, u ∈ M.funcs ∧ u.code = b) → ∀ t, Step1 (S b t) (S b (t + 1))) :
